@@ -113,6 +113,8 @@ def run_case(rng, res, idx, tier):
             res.count('loaded_state_intact_checks')
             if not ok_:
                 return res.violation(f'rank {r}: load_state_dict modified the state it was given (keys removed: {missing_}); an in-memory checkpoint could not be loaded a second time', case)
+            if e0[r].get('loaded_state_intact_at_end') is False:
+                return res.violation(f'rank {r}: the in-memory state that was loaded at boundary {c} no longer holds the saved factors after training went on (the restored factors alias it)', case)
             after = e0[r].get('after_load', {})
             if e0[r].get('steps_after_load') != c:
                 return res.violation(f'rank {r}: steps after load = {e0[r].get("steps_after_load")}, checkpoint was taken at {c}', case)
